@@ -1751,6 +1751,8 @@ impl<'a> Sem<'a> {
             self.cur = 0;
             self.w(&format!("include \"{name}\"\n"));
             self.cur = h + 1;
+            // include guard (so that the diamond below is valid TableGen)
+            self.w(&format!("#ifndef H{h}_TD\n#define H{h}_TD\n"));
             if self.rng.chance(1, 2) {
                 // a blank line keeps the banner from being the first declaration's doc comment
                 self.w(&format!("// header {h}\n\n"));
@@ -1764,6 +1766,12 @@ impl<'a> Sem<'a> {
                 }
                 self.nl();
             }
+            // a later header includes the first one again (a diamond: root -> h0, root -> h1 -> h0)
+            if h >= 1 && self.rng.chance(1, 2) {
+                self.w("include \"h0.td\"\n");
+                self.p.feat.cross_file_use = true;
+            }
+            self.w("#endif\n");
             // variables of a header stay global; nothing to pop
         }
         self.cur = 0;
